@@ -43,9 +43,10 @@ CHECKS = {
     "C20": ("exploration",
             "Bursts of up to 128 concurrent first users over up to 32 regions on 1..3 servers, later discoveries, with and "
             "without connection failures (reset, abort exception, refused first dial, read error). A client-side dial log on one "
-            "clock shows for every address: one dial in fault-free runs, each re-dial only after every earlier connection to "
-            "that address had been closed by the client, and at most one open connection at quiescence.",
-            "'Declared dead' is observed as the client closing the connection. Seeded sample of bursts.",
+            "clock shows for every address: one dial in runs without connection failures (including an in-place split of a region "
+            "that is alone on its server), at the moment of every dial no other region client for that address in the client's "
+            "connection cache, and at most one open connection per address at quiescence.",
+            "'Declared dead' is observed in the client's own connection cache at dial time. Seeded sample of bursts.",
             "runtime event-log checker over the client-side dial/close log", "DESIGN.md §2 C20"),
     "C04": ("fault_enumeration",
             "(a) Every exception class the client classifies plus near-misses is injected at every position (response header, "
@@ -108,14 +109,15 @@ CHECKS = {
             "frames of a single call (a multi-request has one header).",
             "runtime differential decoder on the wire + malformed-stream monitor", "DESIGN.md §2 C05"),
     "C07": ("fault_enumeration",
-            "Batches whose calls follow per-call outcome scripts across retry rounds (success, fatal error, retry-later, region "
-            "not serving, connection dead before/after execution), with the table dropped between rounds and cancellation at "
+            "All single-fault placements for batches of 1..4 calls are enumerated (one call follows a script of one or two outcomes), "
+            "then seeded batches whose calls follow per-call outcome scripts across retry rounds (success, fatal error, retry-later, "
+            "region not serving, connection dead before/after execution, per-action server-fatal exception), with the table dropped between rounds and cancellation at "
             "three points; the result slice is judged slot by slot against the server-side log: own payload, own error, a "
             "delivered success or fatal error never replaced, no executed call with the placeholder, flag consistency.",
             "Outcome scripts and placements are drawn at random (dense for batches of <=12 calls), not exhaustively enumerated.",
             "runtime per-slot oracle joined with the server-side execution log under scripted faults", "DESIGN.md §2 C07"),
     "C12": ("fault_enumeration",
-            "The same scripted-fault batches (up to 40 calls, invalid entries at every position) judged on the server-side log "
+            "The same enumerated single-fault placements and scripted-fault batches (up to 40 calls, invalid entries at every position) judged on the server-side log "
             "only: nothing is sent for an invalid batch, actions execute only on the owning region, calls of a region are first "
             "presented in batch order and re-sent subsets keep batch order, and no call arrives again after its success or "
             "fatal error was delivered.",
@@ -127,7 +129,8 @@ CHECKS = {
             "next to regions of prefix-named and namespaced tables, 7 probe tables x 31 keys (exhaustive small scope). (2) "
             "The real client runs all request kinds and batches against simulated clusters with hostile table names and "
             "boundary-adjacent keys; the simulated servers judge every executed action (region name and server must own "
-            "the row) and meta lookups are counted per first touch (exactly one per new region, none for cached keys).",
+            "the row) and meta lookups are counted per first touch (exactly one per new region, none for cached keys); a "
+            "concurrent phase (8 callers) asserts no misrouting and no lookup for keys of regions resolved before it.",
             "Trusted: simulated hbase:meta answering semantically, brute-force containment. Static layouts, sequential "
             "requests; keys/layouts outside the enumerated scope and random sample are not judged.",
             "runtime differential oracle (exhaustive small scope) + wire-level monitor on a simulated cluster", "DESIGN.md §2 C01"),
@@ -136,12 +139,15 @@ CHECKS = {
             "cellblock / protobuf / compressed results) run through the real client against simulated servers that cut the "
             "stream at random: rows per response, partial fragments inside and across responses, complete rows flagged "
             "partial, heartbeats, late region-end, early more_results=false. The returned sequence is compared with a model "
-            "computed from the case alone (rows, order, cells, fragments concatenating to rows).",
+            "computed from the case alone (rows, order, cells, fragments concatenating to rows). In addition a small scope is "
+            "enumerated: 3 rows x 2 cells, 3 layouts, 9 range shapes, both directions, partials on/off, every chunk script of "
+            "length 3 over 6 response shapes x 2 x 2 flags (exhaustive in the thorough tier, 1/8 sample in quick).",
             "Trusted: simulator scan semantics (DESIGN.md §7). Keys with eight consecutive 0xff excluded as documented. "
             "Seeded sample; chunkings not drawn are not judged.",
             "runtime reference-model monitor over generated scans and server chunkings", "DESIGN.md §2 C06"),
     "C14": ("fault_enumeration",
-            "The scans of C06 are ended at a drawn point in every way a scan can end (exhausted, Close after j calls, "
+            "A 4-row scan over 2 regions is ended in each of 7 ways at every point (j = 0..5 Next calls, r = 1..6 requests; enumerated), "
+            "and the scans of C06 are ended at a drawn point in every way a scan can end (exhausted, Close after j calls, "
             "cancellation between fetches, cancellation with the r-th request unanswered, non-retryable and retryable RPC "
             "error on the r-th request, server-declared end at the r-th response), with and without renewal. A trace "
             "automaton judges the Next sequence, Close is timed and repeated, and the simulated servers' scanner table is "
@@ -172,7 +178,10 @@ CHECKS = {
             "decoders and to the real connection reader's receive step for outstanding get/mutate/scan/multi calls, with "
             "and without compression, and to the region-info parser followed by insertion into the location cache. "
             "Monitors: recover() with cap==len inputs (panics and over-reads), an allocation meter (attacker-chosen "
-            "counts), a bounded wait (reader blocked on a double delivery), child-process crash monitor for fatal errors.",
+            "counts), a bounded wait (reader blocked on a double delivery), child-process crash monitor for fatal errors. Client "
+            "level: the real client against a simulated server answering with decodable but hostile content (empty partial "
+            "results, short counter values, missing fields, inconsistent scan flags, hostile hbase:meta rows); a panic in the "
+            "caller's goroutine or a hang is the violation.",
             "Held on the generated inputs only. Frame size itself (up to 4 GiB announced) is not bounded by the client "
             "and not judged. A missing result in a multi-response (caller keeps waiting) is not judged here.",
             "runtime crash/alloc/hang monitors over structure-aware mutational inputs", "DESIGN.md §2 C11"),
